@@ -1,4 +1,5 @@
 """C16  Array coefficients, sequences, callables and plain numbers broadcast right."""
+import functools
 from fractions import Fraction
 from itertools import product
 
@@ -64,6 +65,21 @@ def same_struct(a, b):
     return False
 
 
+def _first(v):
+    return v
+
+
+class _Const:
+    def __init__(self, v):
+        self.v = v
+
+    def __call__(self):
+        return self.v
+
+    def get(self):
+        return self.v
+
+
 def run_kinds(shard, res):
     import numpy as np
     from kingdon import Algebra, MultiVector
@@ -80,6 +96,9 @@ def run_kinds(shard, res):
         'mvX': lambda: X, 'mvY': lambda: Y, 'list': lambda: [Y, Z], 'tuple': lambda: (Z, Y), 'nested': lambda: [[Y], [Z, Y]],
         'callable': lambda: (lambda: Y), 'callable2': lambda: (lambda: (lambda: Z)), 'callable-list': lambda: (lambda: [Z, Y]),
         'callable-number': lambda: (lambda: 4),
+        # callables that are not plain python functions
+        'partial': lambda: functools.partial(_first, Y), 'callable-object': lambda: _Const(Z), 'bound-method': lambda: _Const(Y).get,
+        'lambda-returning-partial': lambda: (lambda: functools.partial(_first, Z)), 'partial-returning-lambda': lambda: functools.partial(_first, lambda: Y),
     }
     ismv = {'mvX', 'mvY'}
     seq = {'list', 'tuple', 'nested', 'callable-list'}
